@@ -200,6 +200,8 @@ class Models:
         R(r"^core::num::<impl u\d+>::wrapping_(add|sub|mul)$", m_wrapping, "uN::wrapping_* : arithmetic mod 2^N")
         R(r"^core::num::<impl u\d+>::wrapping_neg$", lambda ci: mk_int(wrap(-ci.args[0][1], ci.args[0][2]), ci.args[0][2]) if ci.args[0][0] == "int" else ("app", "Neg", (ci.args[0],)), "wrapping_neg")
         R(r"^core::num::<impl u(\d+|size)>::(div_ceil|next_multiple_of|saturating_add|saturating_sub|min|max|pow|checked_add|checked_mul|is_multiple_of)$", lambda ci: ("app", ci.name.split("::")[-1], tuple(ci.args)), "integer helper (uninterpreted, canonicalised by A7)")
+        R(r"^core::num::<impl u(16|32|64)>::to_(be|le)_bytes$", m_to_bytes, "uN::to_be_bytes / to_le_bytes: the value's bytes, most / least significant first")
+        R(r"^core::num::<impl u(16|32|64)>::from_(be|le)_bytes$", lambda ci: None, "from_*_bytes (unmodelled)")
         R(r"^core::convert::num::<impl core::convert::From<u\d+> for [ui](\d+|size)>::from$", lambda ci: mk_int(ci.args[0][1], ci.dest["ty"]) if ci.args[0][0] == "int" else ("app", "cast:" + ci.dest["ty"], (ci.args[0],)), "lossless integer widening")
         R(r"^<&?u8 as core::ops::bit::(Shr|Shl|BitAnd|BitOr|BitXor)<.*>>::\w+$", m_ref_binop, "operators on &u8 forward to the u8 operator")
         R(r"^core::time::Duration::from_millis$", lambda ci: dur(ci.args[0], 1), "Duration::from_millis")
@@ -736,6 +738,24 @@ def m_sum(ci):
         return mk_int(tot, ty)
     ci.st.emit(("sum", ty, ci.args[0], ci.w))
     return ("app", "sum:" + ty, (ci.args[0],))
+
+
+def m_to_bytes(ci):
+    m = re.search(r"impl u(\d+)>::to_(be|le)_bytes", ci.name)
+    n = int(m.group(1)) // 8
+    x = ci.args[0]
+    out = []
+    for i in range(n):
+        sh = 8 * i
+        if x[0] == "int":
+            out.append(mk_int((x[1] >> sh) & 0xFF, "u8"))
+        else:
+            out.append(("app", "cast:u8", (("app", "Shr", (x, mk_int(sh, "u32"))) if sh else x,)))
+    if m.group(2) == "be":
+        out.reverse()
+    if all(o[0] == "int" for o in out):
+        return ("bytes", bytes(o[1] for o in out))
+    return ("array", tuple(out))
 
 
 def m_wrapping(ci):
